@@ -61,6 +61,18 @@ Example ex_cmp : num_cmp CEq (i_ 1) (f_ 1000 (-3)) = true /\ num_cmp CLt (f_ 999
                  num_cmp CGt (i_ (10 ^ 40)) (f_ 9 39) = true /\ num_cmp CLe (ni_ 1) (f_ 0 5) = true.
 Proof. vm_compute. repeat split; reflexivity. Qed.
 
+(* int against float above 2^53 and below the smallest float64: exact (seeded change c06-2 compared
+   them through float64), also when a bound validates a value *)
+Example ex_mixed_order :
+  num_cmp CGt (i_ 9007199254740993) (f_ 90071992547409920 (-1)) = true /\
+  num_cmp CLe (i_ 9007199254740993) (f_ 90071992547409920 (-1)) = false /\
+  num_cmp CGt (i_ (2 ^ 63)) (f_ (2 ^ 63 * 10 - 5) (-1)) = true /\
+  num_cmp CGt (i_ (10 ^ 34 + 1)) (f_ 10 33) = true /\
+  num_cmp CLt (i_ 0) (f_ 1 (-400)) = true /\
+  eval true (EBound CGt (ELit (i_ 9007199254740993)) (ELit (f_ 90071992547409920 (-1)))) = Ok (VNum (i_ 9007199254740993)) /\
+  eval true (EBound CLt (ELit (i_ 9007199254740993)) (ELit (f_ 90071992547409920 (-1)))) = Err.
+Proof. vm_compute. repeat split; reflexivity. Qed.
+
 (* literals *)
 Definition str (s : list N) := s.
 (* "1.5G" *)
